@@ -813,6 +813,34 @@ def module_ir(tree: ast.Module, main_name: str):
     nested = [st for st in main.body if isinstance(st, ast.FunctionDef)]
     rest = [st for st in main.body if not isinstance(st, ast.FunctionDef)
             and not (isinstance(st, ast.Expr) and isinstance(st.value, ast.Constant))]
+    # plain local assignments in front of the return (`key = ...`, `variant = helper(...)`) are folded into it; the names
+    # they bind are recorded: a field of the same name would be overwritten by them
+    main_locals = []
+    if rest and isinstance(rest[-1], ast.Return) and all(
+            isinstance(s_, ast.Assign) and len(s_.targets) == 1 and isinstance(s_.targets[0], ast.Name) for s_ in rest[:-1]):
+        import copy as _copy
+        env_ = {}
+        for s_ in rest[:-1]:
+            val_ = _copy.deepcopy(s_.value)
+
+            class _Sub(ast.NodeTransformer):
+                def visit_Name(self, n_):
+                    if isinstance(n_.ctx, ast.Load) and n_.id in env_:
+                        return _copy.deepcopy(env_[n_.id])
+                    return n_
+            env_[s_.targets[0].id] = _Sub().visit(val_)
+            main_locals.append(s_.targets[0].id)
+        if env_:
+            class _Sub2(ast.NodeTransformer):
+                def visit_Name(self, n_):
+                    if isinstance(n_.ctx, ast.Load) and n_.id in env_:
+                        return _copy.deepcopy(env_[n_.id])
+                    return n_
+            folded = ast.Return(value=_Sub2().visit(_copy.deepcopy(rest[-1].value)))
+            ast.copy_location(folded, rest[-1])
+            ast.fix_missing_locations(folded)
+            rest = [folded]
+    ir["main_locals"] = main_locals
     if len(rest) != 1 or not isinstance(rest[0], ast.Return):
         raise ModuleShapeError("main function body is not `[def helper] return helper(...)(key)`: "
                                + "; ".join(norm(s)[:60] for s in rest))
